@@ -14,7 +14,7 @@ fn bx(e: E) -> Box<E> {
     Box::new(e)
 }
 
-pub const HOT: &[&str] = &["<", ">", "\"", "'", "&", "<b>", "a<b", "&amp;", "x'y\"z", "<é>", "&lt;", "'", "<<>>", "日<本", "&&", "<a href=\"x\">"];
+pub const HOT: &[&str] = &["<", ">", "\"", "'", "&", "<b>", "a<b", "&amp;", "x'y\"z", "<é>", "&lt;", "'", "<<>>", "日<本", "&&", "<a href=\"x\">", "<script>alert('a string longer than twenty-one bytes')</script>", "a rather long key without anything special until here: <'\">"];
 
 struct ZSafe;
 impl Filter<tera::Value, String> for ZSafe {
